@@ -18,11 +18,11 @@ import (
 var ledgerOrder = []string{"gov_params", "proposal", "frozen_proposal", "accounts", "delegatees", "frozen", "rewards"}
 
 type crashPoint struct {
-	Block  int    // index of the interrupted block
-	Label  string // e.g. "pre_begin", "post_begin", "post_tx2", "post_end", "commit:accounts", "post_commit"
+	Block    int    // index of the interrupted block
+	Label    string // e.g. "pre_begin", "post_begin", "post_tx2", "post_end", "commit:accounts", "post_commit"
 	InCommit bool
-	Last   bool   // the last durable write of the commit (meta height)
-	Dir    string
+	Last     bool // the last durable write of the commit (meta height)
+	Dir      string
 }
 
 // knownCrashLabels: crash points recorded as known finding F8 (see known_findings.json).
@@ -126,9 +126,9 @@ func TestC08(t *testing.T) {
 			BlockHooks: func(c *Case, b *Block) *BlockHooks {
 				bi := blockIdx
 				return &BlockHooks{
-					AfterBegin: func() { snap(bi, "post_begin", false, false) },
-					AfterTx:    func(i int, r TxResult) { snap(bi, fmt.Sprintf("post_tx%d", i), false, false) },
-					AfterEnd:   func() { snap(bi, "post_end", false, false); c.inCommit = true },
+					AfterBegin:  func() { snap(bi, "post_begin", false, false) },
+					AfterTx:     func(i int, r TxResult) { snap(bi, fmt.Sprintf("post_tx%d", i), false, false) },
+					AfterEnd:    func() { snap(bi, "post_end", false, false); c.inCommit = true },
 					AfterCommit: func() { c.inCommit = false; snap(bi, "post_commit", false, false) },
 				}
 			},
